@@ -40,7 +40,7 @@ func c09Jobs(tier string, seed uint64, n int) []c09Job {
 	if n == 0 {
 		n = 4000
 		if tier == "thorough" {
-			n = 60000
+			n = 40000
 		}
 	}
 	var jobs []c09Job
@@ -49,7 +49,7 @@ func c09Jobs(tier string, seed uint64, n int) []c09Job {
 	}
 	nb, na, nm, nc := n*46/100, n*36/100, n*2/100, n*4/100
 	if tier == "thorough" {
-		nm, nc = 1200, 3000
+		nm, nc = 800, 2000
 	}
 	// the model / cycle cases carry whole schemas and documents into Coq: spread them evenly
 	// over the cheap ones so that every Coq shard gets its share
